@@ -29,7 +29,7 @@ H = 2.0**-10
 
 @S.composite
 def strategy_(g):
-    case = E.gen_edge(g, info_kind=g.choice(["ident", "spd"]), max_cond=1e2)
+    case = E.gen_edge(g, info_kind=g.choice(["ident", "spd", "zero-rowcol", "psd"]), max_cond=1e2)  # the Jacobian must not depend on it
     # the vertices' fixed flags (as left behind by optimize(fix_first_pose=True) or set by the user) are irrelevant
     case["fixed"] = [g.choice([False, False, True]), g.choice([False, False, True])]
     # a second state for the same edge object (history): the Jacobians must follow the *current* vertex poses
